@@ -100,9 +100,51 @@ static void op_sum(const McArg *a) {
     mc_max(3, fabs(s - 4 * M_PI));
     MC_CHECK(fabs(s - 4 * M_PI) <= 1e-9, "areas of all resolution-%d cells sum to %.17g, 4*pi = %.17g", r, s, 4 * M_PI);
 }
-enum { OP_CELL, OP_SUM };
-const McOp MC_OPS[] = {{"cell", "h", op_cell}, {"sum", "i", op_sum}};
-const int MC_NOPS = 2;
+// seq(start, stride): bare cellToBoundary / cellAreaRads2 calls over the mixed list in a scrambled order (stride walk), each result compared
+// with the result of the same call made in a resolution-by-resolution pass: the boundary of a cell must not depend on which cell was
+// processed before it (differences are judged at the property's own 1e-12 rad / vertex count, so rounding noise could never alarm)
+static U64Vec g_mix;
+static CellBoundary *g_ref;
+static double *g_refA;
+static void op_seq(const McArg *a) {
+    size_t n = g_mix.n, start = (size_t)a[0].i % n, stride = (size_t)a[1].i % n;
+    int len = (int)a[2].i;
+    if (!g_ref) {
+        g_ref = malloc(n * sizeof *g_ref);
+        g_refA = malloc(n * sizeof *g_refA);
+        for (size_t i = 0; i < n; i++) {  // g_mix is sorted: ascending resolution
+            if (cellToBoundary(g_mix.v[i], &g_ref[i])) g_ref[i].numVerts = -1;
+            if (cellAreaRads2(g_mix.v[i], &g_refA[i])) g_refA[i] = -1;
+        }
+    }
+    size_t i = start;
+    for (int q = 0; q < len; q++, i = (i + stride) % n) {
+        CellBoundary cb;
+        double A = -1;
+        mc_trans(2);
+        if (cellToBoundary(g_mix.v[i], &cb)) cb.numVerts = -1;
+        if (cellAreaRads2(g_mix.v[i], &A)) A = -1;
+        McArg args[1] = {H(g_mix.v[i])};
+        if (cb.numVerts != g_ref[i].numVerts) {
+            mc_fail("cellToBoundary(%" PRIx64 ") returns %d vertices after the call sequence seq(%zu,%zu) step %d, %d vertices in a resolution-by-resolution pass", g_mix.v[i], cb.numVerts, start, stride, q, g_ref[i].numVerts);
+            return;
+        }
+        for (int v = 0; v < cb.numVerts; v++)
+            if (adist(cb.verts[v], g_ref[i].verts[v]) > 1e-12) {
+                mc_fail("cellToBoundary(%" PRIx64 ") vertex %d differs by %.3g rad between the call sequence seq(%zu,%zu) step %d and a resolution-by-resolution pass", g_mix.v[i], v, adist(cb.verts[v], g_ref[i].verts[v]), start, stride, q);
+                return;
+            }
+        if (fabs(A - g_refA[i]) > 1e-9 * fabs(g_refA[i])) {
+            mc_fail("cellAreaRads2(%" PRIx64 ") = %.17g after the call sequence seq(%zu,%zu) step %d, %.17g in a resolution-by-resolution pass", g_mix.v[i], A, start, stride, q, g_refA[i]);
+            return;
+        }
+        (void)args;
+    }
+    mc_nontrivial();
+}
+enum { OP_CELL, OP_SUM, OP_SEQ };
+const McOp MC_OPS[] = {{"cell", "h", op_cell}, {"sum", "i", op_sum}, {"seq", "iii", op_seq}};
+const int MC_NOPS = 3;
 
 static int g_res;
 static void ph_full(void *u) {
@@ -131,11 +173,35 @@ static void ph_fine(void *u) {
         MC_RUN(OP_CELL, H(g_fine.v[i]));
     }
 }
+// the same per-cell oracle over a list that interleaves all 16 resolutions, pentagons, edge-crossing cells and plain hexagons in a
+// scrambled order: a result that depends on which cell (resolution, class, face) was processed before shows up here
+static void ph_seq(void *u) {
+    // strides chosen so that consecutive elements lie in different resolutions / classes; every start residue is covered
+    static const size_t strides[] = {1, 7919, 104729, 1299709};
+    uint64_t idx = 0;
+    size_t n = g_mix.n;
+    for (int s = 0; s < 4; s++)
+        for (size_t start = 0; start < n; start += 4096, idx++) {
+            if (!mc_mine(idx)) continue;
+            if (mc_expired()) return;
+            // one sequence visits 4096 elements: with stride s the sequences started at 0,4096,.. x (n/s residues) interleave the whole list
+            MC_RUN(OP_SEQ, I((int64_t)(start * strides[s] % n)), I((int64_t)(strides[s] % n)), I(4096));
+        }
+}
+static void ph_mixed(void *u) {
+    size_t n = g_mix.n, lo = n * mc_wid / mc_nw, hi = n * (mc_wid + 1) / mc_nw;
+    for (size_t q = lo; q < hi; q++) {
+        if ((q & 63) == 0 && mc_expired()) return;
+        size_t i = (size_t)(((unsigned __int128)q * 0x9E3779B97F4A7C15ull) % n);  // bijective only if gcd(mult, n) = 1: n is made odd below
+        mc_states(1);
+        MC_RUN(OP_CELL, H(g_mix.v[i]));
+    }
+}
 int main(int argc, char **argv) {
     mc_init(argc, argv);
     int fullmax = mc_thorough ? 7 : 5;
     g_sum = mc_shalloc(MC_MAXW * 16 * 2 * sizeof(double));
-    snprintf(mc_bounds, sizeof mc_bounds, "FULL(0..%d) complete with area sums; FINE level 0 families + EDGE family (cells on %d points along each of the 30 icosahedron edges, closed under one neighbour step) at resolutions %d..15", fullmax, mc_thorough ? 4000 : 600, fullmax + 1);
+    snprintf(mc_bounds, sizeof mc_bounds, "FULL(0..%d) complete with area sums; FINE level 0 families + EDGE family (cells on %d points along each of the 30 icosahedron edges, closed under one neighbour step) at resolutions %d..15; a scrambled list interleaving pentagons, edge-crossing cells and family cells of all 16 resolutions", fullmax, mc_thorough ? 4000 : 600, fullmax + 1);
     for (g_res = 0; g_res <= fullmax; g_res++) {
         char nm[64];
         snprintf(nm, sizeof nm, "FULL(%d)", g_res);
@@ -148,5 +214,14 @@ int main(int argc, char **argv) {
     }
     uv_sortuniq(&g_fine);
     mc_phase("fine families", ph_fine, NULL);
+    for (int r = 0; r <= 15; r++) {
+        dom_pent(r, r < 1 ? 0 : 1, &g_mix);
+        dom_edge(r, mc_thorough ? 200 : 40, 0, &g_mix);
+        dom_fine_raw(r, 2, &g_mix);
+    }
+    uv_sortuniq(&g_mix);
+    while (g_mix.n > 1 && (g_mix.n % 2 == 0 || g_mix.n % 3 == 0 || g_mix.n % 5 == 0 || g_mix.n % 7 == 0 || g_mix.n % 11 == 0)) g_mix.n--;
+    mc_phase("mixed-resolution scrambled order", ph_mixed, NULL);
+    mc_phase("bare call sequences across resolutions", ph_seq, NULL);
     return mc_finish();
 }
